@@ -50,6 +50,11 @@
      - serde's leniency on by-name calls beyond the strict JSON parse: unknown members are skipped by serde without
        interpreting them (lone surrogate escapes and nesting deeper than the recursion limit pass there), here the whole
        object is read by the strict parser; which serde message the -32602 error object carries in `data`;
+     - BY-NAME decoding of a parameter declared `Option<T>` that helpers::is_option does not take for optional (p_opt = false,
+       p_ty = Option<T>): serde's derived ParamsObject fills a missing member of an Option-typed field with None (by the type,
+       not by the spelling) where this model answers -32602; positional decoding of such a parameter (seq.next::<Option<T>>():
+       null and values accepted, an omitted tail is an error) IS modelled.  The case cannot arise for the compiled family once
+       Props/C17.v C17_option_spellings_are_optional compiles (every std spelling of Option has p_opt = true);
      - the response size limit and a failing `Serialize` of the result (C08); notifications (a method without a return
        type makes the stub send a notification, which a jsonrpsee server never dispatches to a handler);
      - how the subscription id is chosen; closing of subscriptions (C04/C06). *)
@@ -116,7 +121,8 @@ Definition lower_camel_case (s : bytes) : bytes :=
 Inductive pkind := PArray | PMap.
 Inductive mkind := MSync | MAsync | MBlocking.
 
-(* one `name: Type` of a trait method; p_opt = helpers::is_option(ty) and then p_ty is the T of Option<T> *)
+(* one `name: Type` of a trait method; p_opt = helpers::is_option(ty) and then p_ty is the T of Option<T> (a declared
+   Option<T> for which is_option says no is an ordinary parameter of type Option<T>: p_opt = false, p_ty = TyOption T) *)
 Record param (ty : Type) := Param {
   p_ident : bytes;
   p_rename : option bytes;
@@ -157,6 +163,21 @@ Record api (ty : Type) := Api {
   a_methods : list (method ty);
   a_subs : list (subscription ty) }.
 Arguments Api {ty}. Arguments a_namespace {ty}. Arguments a_separator {ty}. Arguments a_methods {ty}. Arguments a_subs {ty}.
+
+(* How a parameter type that is std's Option may be SPELLED in a trait (the path segments as syn sees them: a leading `::`
+   is not a segment, generic arguments belong to the last segment): `Option<T>`, `option::Option<T>` (with `use std::option`
+   in scope), `std::option::Option<T>`, `core::option::Option<T>`.  The macro decides optionality from the spelling
+   (helpers::is_option); p_opt is its decision, `is_std_option` says for which spellings the decision has to be `true`
+   (Props/C17.v C17_option_spellings_are_optional, on the decisions generated for the compiled family). *)
+Definition std_option_paths : list (list bytes) :=
+  [ [b#"Option"]; [b#"option"; b#"Option"]; [b#"std"; b#"option"; b#"Option"]; [b#"core"; b#"option"; b#"Option"] ].
+Fixpoint path_eqb (a b : list bytes) : bool :=
+  match a, b with
+  | [], [] => true
+  | x :: a', y :: b' => bytes_eqb x y && path_eqb a' b'
+  | _, _ => false
+  end.
+Definition is_std_option (segs : list bytes) : bool := existsb (path_eqb segs) std_option_paths.
 
 (* ================================================================ 3. names and the registrations of into_rpc *)
 
